@@ -11,7 +11,7 @@ fail=0
 for s in $seeds; do
   prop=${s%%-*}
   git -C "$wt/repo" checkout -q -- . && git -C "$wt/repo" apply "$PWD/seeded/$s/patch.diff" || { echo "$s: patch does not apply"; fail=1; continue; }
-  VERIF_REPO="$wt/repo" ./check $prop --tier quick --budget $budget > "$wt/$s.log" 2>&1
+  VERIF_REPO="$wt/repo" ./check $prop --tier quick --evidence-dir /tmp/esrally-verif-dev-evidence --budget $budget > "$wt/$s.log" 2>&1
   rc=$?
   if [ $rc -eq 1 ]; then echo "$s: caught ($(grep -c '^VIOLATION' "$wt/$s.log") violation keys; $(grep -m1 'key=' "$wt/$s.log" | sed 's/.*key=//'))"; else echo "$s: NOT caught (exit $rc)"; fail=1; fi
 done
